@@ -80,7 +80,7 @@ def run(chk):
     pr = vlib.proof_step(chk, PROP_FILE, "From SeataV Require Import Props.P_C15.")
     conf = write_conf(chk)
     data, secs = vlib.run_harness("remrun15", chk.tmp("p2.json"), timeout=1500, conf=conf, seed=chk.seed,
-                                  n=60 if quick else 1500, max=40 if quick else 120)
+                                  n=60 if quick else 5000, max=40 if quick else 120)
     streams = data["cases"]
     terms, owner = [], []
     for si, cs in enumerate(streams):
